@@ -41,3 +41,6 @@ pub assume_specification[ u32::pow ](b: u32, e: u32) -> (r: u32)
     ensures  r == vstd::arithmetic::power::pow(b as int, e as nat);
 } // mod vp_std
 pub use vp_std::*;
+#[verifier::external_type_specification]
+#[verifier::external_body]
+pub struct ExIoError(std::io::Error);
